@@ -102,9 +102,9 @@ def c12(tier):
     # --- P: whole pipeline incl. code generation, twice in-process, under the watchdog; the family
     # is then expanded a second time by different worker processes and the code digests compared
     fams = ["stress", "e2e:C01:quick", "e2e:C03:quick", "e2e:C04:quick", "e2e:C05:quick", "e2e:C10:quick", "e2e:C16:quick", "e2e:C11:quick", "e2e:C13:quick",
-            "single4_a12", "pair3_a6", "triple2_a6", "ctx2_2", "eoi2_a6", "rsets_quick"]
+            "single4_a12", "single5_a6", "pair3_a6", "triple2_a6", "ctx2_2", "eoi2_a6", "rsets_quick", "diff_rules"]
     if not q:
-        fams += ["pair3_a12", "ctx2_3", "ctx_pair", "eoi3_a6", "rsets", "rsets_enum", "single5_a6", "triple2_a12", "e2e:C01:thorough", "e2e:C04:thorough"]
+        fams += ["pair3_a12", "ctx2_3", "ctx_pair", "eoi3_a6", "rsets", "rsets_enum", "single5_a12", "triple2_a12", "e2e:C01:thorough", "e2e:C04:thorough"]
     distinct = 0
     for fam in fams:
         r1 = vlib.pexp(["screen", fam, 16], timeout=7200)
